@@ -242,9 +242,16 @@ func c20Generic(b []byte, into any) error {
 	return d.Decode(into)
 }
 
-// c20QuantityText renders n mega-units in one of the textual forms resource.Quantity accepts.
+// c20QuantityText renders n (mega-units mostly; 10%: kilo-, plain or milli-units, i.e. values below 1M) in one of the
+// textual forms resource.Quantity accepts. n >= 1: zero is never produced.
 func c20QuantityText(r *kit.Rand, n int64) string {
-	switch r.Weighted(58, 8, 8, 8, 8, 8, 2) {
+	switch r.Weighted(48, 8, 8, 8, 8, 8, 2, 4, 4, 2) {
+	case 7: // small magnitudes are legal quantities too: below one mega-unit ...
+		return fmt.Sprintf("%dk", n)
+	case 8: // ... a plain small integer ...
+		return fmt.Sprintf("%d", n)
+	case 9: // ... or a fractional value
+		return fmt.Sprintf("%dm", n)
 	case 1:
 		return fmt.Sprintf("%dk", n*1000)
 	case 2:
@@ -1208,6 +1215,16 @@ func (x *c20Run) install(sec *c20Section) {
 		c.Count("entries_"+sec.name, len(eff.entries))
 		if len(eff.entries) >= 5 {
 			c.Count("sections_with_5plus_entries", 1)
+		}
+		for _, e := range eff.entries {
+			if v, ok := e.leaves["totalNetworkBandwidth"]; ok {
+				if q, ok := new(big.Rat).SetString(strings.TrimPrefix(v, "q:")); ok && q.Cmp(big.NewRat(1000000, 1)) < 0 {
+					c.Count("entry_bandwidth_below_1M", 1)
+					if cv, ok := eff.cluster["totalNetworkBandwidth"]; ok && cv != v {
+						c.Count("entry_bandwidth_below_1M_with_other_cluster_value", 1)
+					}
+				}
+			}
 		}
 		for _, l := range append([]c20Leaves{eff.cluster}, c20EntryLeaves(eff)...) {
 			for p, v := range l {
